@@ -72,14 +72,16 @@ impl EightChar {
   }
 
   pub fn get_own_sign(&self) -> SixtyCycle {
-    let mut offset: isize = (self.month.get_earth_branch().next(-1).get_index() + self.hour.get_earth_branch().next(-1).get_index()) as isize;
+    // 月支、时支自寅起数：寅为1 … 子为11，丑为12（next(-1) 会把丑数成0，使天干多进两位）
+    let mut offset: isize = ((self.month.get_earth_branch().get_index() + 10) % 12 + 1 + (self.hour.get_earth_branch().get_index() + 10) % 12 + 1) as isize;
     offset = if offset >= 14 { 26 } else { 14 } - offset;
     offset -= 1;
     SixtyCycle::from_name(format!("{}{}", HeavenStem::from_index(((self.year.get_heaven_stem().get_index() as isize) + 1) * 2 + offset).get_name(), EarthBranch::from_index(2 + offset).get_name()).as_str())
   }
 
   pub fn get_body_sign(&self) -> SixtyCycle {
-    let offset: isize = (self.month.get_earth_branch().get_index() as isize + self.hour.get_earth_branch().get_index() as isize - 1) % 12;
+    // 子月子时：-1 % 12 在 Rust 中为 -1（应为 11）
+    let offset: isize = ((self.month.get_earth_branch().get_index() + self.hour.get_earth_branch().get_index() + 11) % 12) as isize;
     SixtyCycle::from_name(format!("{}{}", HeavenStem::from_index(((self.year.get_heaven_stem().get_index() as isize) + 1) * 2 + offset).get_name(), EarthBranch::from_index(2 + offset).get_name()).as_str())
   }
 
